@@ -223,7 +223,16 @@ pub fn generate(cx: &super::GenCtx) -> Vec<Plan> {
             }
         }
     }
-    s.push(Action::send("isready"));
+    if rng.chance(1, 10) {
+        // quit (or end of input) while a search is running must still end the session
+        s.push(Action::send("go infinite"));
+        s.push(Action::DelaySteps(*rng.pick(DELAYS)));
+        if rng.chance(1, 3) {
+            s.push(Action::Eof);
+        }
+    } else {
+        s.push(Action::send("isready"));
+    }
     s.push(Action::send("quit"));
     gen::decorate_all(&mut s, &mut rng, 1);
     plan.script = s;
